@@ -6,6 +6,7 @@ import (
 	"go/ast"
 	"go/constant"
 	"go/token"
+	"go/types"
 
 	"golang.org/x/tools/go/packages"
 )
@@ -94,4 +95,52 @@ func (t *Table) SliceValues() ([]constant.Value, error) {
 		next++
 	}
 	return out, nil
+}
+
+// StructRows reads a package-level slice-of-struct literal as rows of field name → constant value.
+func StructRows(p *packages.Package, name string) ([]map[string]constant.Value, token.Pos, error) {
+	for _, f := range p.Syntax {
+		for _, d := range f.Decls {
+			gd, ok := d.(*ast.GenDecl)
+			if !ok || gd.Tok != token.VAR {
+				continue
+			}
+			for _, sp := range gd.Specs {
+				vs := sp.(*ast.ValueSpec)
+				for i, n := range vs.Names {
+					if n.Name != name || i >= len(vs.Values) {
+						continue
+					}
+					cl, ok := vs.Values[i].(*ast.CompositeLit)
+					if !ok {
+						return nil, 0, fmt.Errorf("%s is not initialised by a composite literal", name)
+					}
+					var rows []map[string]constant.Value
+					for _, e := range cl.Elts {
+						if kv, ok := e.(*ast.KeyValueExpr); ok {
+							e = kv.Value
+						}
+						row, ok := e.(*ast.CompositeLit)
+						if !ok {
+							return nil, 0, fmt.Errorf("%s: element is not a struct literal", name)
+						}
+						st, _ := p.TypesInfo.TypeOf(row).Underlying().(*types.Struct)
+						m := map[string]constant.Value{}
+						for j, fe := range row.Elts {
+							if kv, ok := fe.(*ast.KeyValueExpr); ok {
+								if id, ok := kv.Key.(*ast.Ident); ok {
+									m[id.Name] = p.TypesInfo.Types[kv.Value].Value
+								}
+							} else if st != nil && j < st.NumFields() {
+								m[st.Field(j).Name()] = p.TypesInfo.Types[fe].Value
+							}
+						}
+						rows = append(rows, m)
+					}
+					return rows, cl.Pos(), nil
+				}
+			}
+		}
+	}
+	return nil, 0, fmt.Errorf("table %s not found", name)
 }
